@@ -103,6 +103,9 @@ func ruleFlagNonInterference(c *Ctx, r *Report, rule string) {
 						r.bad(rule, key, "under an introspection flag the code does more than call observers", c.pos(s.Pos()))
 						return true
 					}
+					if _, isObs := observers[c.calleeName(call)]; !isObs && c.observerParam(fd, call, observers) {
+						continue // an observer handed in as a function value by every caller
+					}
 					if _, isObs := observers[c.calleeName(call)]; !isObs {
 						r.bad(rule, key, "under an introspection flag "+c.calleeName(call)+" is called, which is not one of the observers", c.pos(s.Pos()))
 						return true
@@ -216,14 +219,21 @@ func ruleTraceCount(c *Ctx, r *Report, rule string) {
 	// opsRead incremented only in readOp; readOp called once in the loop
 	c.ownership(r, rule, "execStats", "opsRead", map[string]string{"vm.run$readOp": "counts the fetch", "printXStats": "prints it"}, false)
 	calls := 0
-	ast.Inspect(vm.Func.Body, func(n ast.Node) bool {
-		if call, isC := n.(*ast.CallExpr); isC {
-			if vm.callRole(c, call) == "readOp" {
-				calls++
+	bodies := []ast.Node{vm.Func.Body}
+	for _, md := range vm.InlineMethods {
+		// the machine's other code (the dispatch in a step function of its own, arms split into methods)
+		bodies = append(bodies, md.Body)
+	}
+	for _, b := range bodies {
+		ast.Inspect(b, func(n ast.Node) bool {
+			if call, isC := n.(*ast.CallExpr); isC {
+				if vm.callRole(c, call) == "readOp" {
+					calls++
+				}
 			}
-		}
-		return true
-	})
+			return true
+		})
+	}
 	r.check(calls == 1, rule, "single-fetch", "readOp is called once per loop iteration (the switch header)", fmt.Sprintf("readOp has %d call sites; exactly one (the dispatch) must fetch and count", calls), c.pos(vm.Loop.Pos()))
 	// disasm walk: a loop over a local offset that starts at 0, runs while offset < len(code), and whose only
 	// assignment to the offset is — unconditionally, once per iteration — the value the instruction decoder
@@ -511,4 +521,67 @@ func (c *Ctx) optionStores(fd *ast.FuncDecl) (stores []string, undecided []strin
 	}
 	undecided = append(undecided, in.Undecided...)
 	return dedupe(stores), undecided
+}
+
+// observerParam: call invokes a function-typed parameter of fd, and every call site of fd passes for it an observer
+// itself or a function literal that does nothing but call observers.
+func (c *Ctx) observerParam(fd *ast.FuncDecl, call *ast.CallExpr, observers map[string]string) bool {
+	id, ok := stripParens(call.Fun).(*ast.Ident)
+	if !ok || fd.Type.Params == nil {
+		return false
+	}
+	idx, k := -1, 0
+	for _, f := range fd.Type.Params.List {
+		for _, n := range f.Names {
+			if c.infoFor(n).Defs[n] == c.objOf(id) {
+				idx = k
+			}
+			k++
+		}
+	}
+	if idx < 0 {
+		return false
+	}
+	owner := c.infoFor(fd.Name).Defs[fd.Name]
+	sites, good := 0, 0
+	for _, it := range c.sortedDecls() {
+		if it.fd.Body == nil {
+			continue
+		}
+		walkCalls(it.fd.Body, false, func(cs *ast.CallExpr) {
+			if c.callee(cs) != owner || idx >= len(cs.Args) {
+				return
+			}
+			sites++
+			switch a := stripParens(cs.Args[idx]).(type) {
+			case *ast.FuncLit:
+				all := len(a.Body.List) > 0
+				for _, s := range a.Body.List {
+					es, isE := s.(*ast.ExprStmt)
+					if !isE {
+						all = false
+						break
+					}
+					oc, isC := es.X.(*ast.CallExpr)
+					if !isC {
+						all = false
+						break
+					}
+					if _, isObs := observers[c.calleeName(oc)]; !isObs {
+						all = false
+					}
+				}
+				if all {
+					good++
+				}
+			case *ast.Ident, *ast.SelectorExpr:
+				if fn, isF := c.objOf(a).(*types.Func); isF {
+					if _, isObs := observers[funcName(fn)]; isObs {
+						good++
+					}
+				}
+			}
+		})
+	}
+	return sites > 0 && good == sites
 }
